@@ -598,6 +598,17 @@ func TestVerifC15(t *testing.T) {
 
 	// separate stream: scenarios outside the hypotheses of the theorems (sorting latency >= 1h)
 	st2 := VOpenStream("c15oob")
+	// scripted witness of nil_iff_no_alive_full_fails (design_notes/C15.md, finding c15-hour-sentinel):
+	// two nodes, node 0 carries add_latency = 1h; node 1 dies for tcp4; node 0 is probed fine.
+	{
+		w := c15NewWorld(st2, stats, 2, false)
+		w.makeGroup(0, consts.DialerSelectionPolicy_MinLastLatency, 0, []int64{c15Hour, 0})
+		w.fail(2, 1, true, true)
+		w.fail(2, 0, true, true)
+		w.sample(2, 0, 1000000)
+		w.sel(false, false, false, 0, true, -1)
+		_ = w.g.Close()
+	}
 	for i := 0; i < nScen/10+3; i++ {
 		c15Scenario(r, st2, stats, 30, true)
 	}
